@@ -99,7 +99,8 @@ def run(ctx):
     jcases = [Case(c.cid + "j", c.schema, _copy.deepcopy(c.docs), extra_imports=True, wire="json", fam="yaml-twin/" + c.fam, no_model=True) for c in ycases]
     from vlib.overlay import sibling_group_cases
     from vlib.valuecheck import expect_cases
-    sg = sibling_group_cases("string", "c06") + extension_cases()
+    from vlib.lookalike import lookalike_cases
+    sg = sibling_group_cases("string", "c06") + extension_cases() + lookalike_cases("c06", "string")
     run_cases(ctx, cases + ycases + jcases + sg, "c06")
     expect_cases(ctx, sg, "string constraints")
     nyv = 0
